@@ -201,6 +201,29 @@ Example C16_example_reply_blocked_until_close :
   quiet g' = true /\ cn_close (cn g') + cn_reply (cn g') = 0 /\ sock_closes (cn g') = 1.
 Proof. exact reply_blocked_until_close. Qed.
 
+(* --- a state machine that fails on a received (post-handshake) message releases the read loop --- *)
+(* Env (ERecvHs failed) hands a handshake/ACK datagram to the state machine, the read loop waits in
+   [RHand failed]; C16_no_deadlock / C16_close_returns / C16_alert... range over these inputs too. *)
+Theorem C16_fsm_failure_releases_reader :
+  forall (g : cfg) (f : bool),
+    rd g = RHand f ->
+    op_enabled StepReader g = true /\ rd (exec StepReader g) = RRead /\
+    closed (cn (exec StepReader g)) = closed (cn g).
+Proof. exact fsm_failure_releases_reader. Qed.
+Print Assumptions C16_fsm_failure_releases_reader.
+
+Example C16_example_failed_post_handshake_then_peer_close :
+  let g := run ops_failed_post_handshake_then_peer_close (cfg0 false true) in
+  closed (cn g) = true /\ cn_reply (cn g) = 1 /\ cn_close (cn g) = 0 /\ dec_closed (cn g) = true /\
+  sock_closes (cn g) = 1 /\ quiet g = true /\ In KEof (read_ready (cn g)).
+Proof. exact failed_post_handshake_then_peer_close. Qed.
+
+Example C16_example_failed_post_handshake_then_close :
+  let g := run ops_failed_post_handshake_then_close (cfg0 false true) in
+  closed (cn g) = true /\ cn_close (cn g) = 1 /\ sock_closes (cn g) = 1 /\ quiet g = true /\
+  us g = [UDone] /\ rd g = RDone.
+Proof. exact failed_post_handshake_then_close. Qed.
+
 (* --- known gap K-C16-1: a deadline does not wake a Read/Write blocked in the implicit
    Handshake() (conn.go Read/Write call HandshakeContext(context.Background())) --- *)
 Theorem C16_deadline_wakes_handshake_refuted :
